@@ -93,13 +93,13 @@ func init() {
 				}
 				eachInstr(fn, func(in ssa.Instruction) {
 					if ld, ok := in.(*ssa.UnOp); ok && ld.Op == token.MUL {
-						if fv := fieldVar(ld.X); fv != nil && fv.Name() == "Val" && fv.Pkg() != nil && fv.Pkg().Path() == "golang.org/x/net/html" {
+						if fv := fieldVar(ld.X); fv != nil && fieldIs(fv, "Val") && fv.Pkg() != nil && fv.Pkg().Path() == "golang.org/x/net/html" {
 							seeds++
 							t.Seed(ld, "Attribute.Val loaded at "+p.instrPos(ld))
 						}
 					}
 					if f, ok := in.(*ssa.Field); ok {
-						if fv := fieldVar(f); fv != nil && fv.Name() == "Val" && fv.Pkg() != nil && fv.Pkg().Path() == "golang.org/x/net/html" {
+						if fv := fieldVar(f); fv != nil && fieldIs(fv, "Val") && fv.Pkg() != nil && fv.Pkg().Path() == "golang.org/x/net/html" {
 							seeds++
 							t.Seed(f, "Attribute.Val read at "+p.instrPos(f))
 						}
@@ -162,7 +162,7 @@ func init() {
 						return
 					}
 					fv := fieldVar(ld.X)
-					if fv == nil || fv.Name() != "Data" || fv.Pkg() == nil || fv.Pkg().Path() != "golang.org/x/net/html" {
+					if fv == nil || !fieldIs(fv, "Data") || fv.Pkg() == nil || fv.Pkg().Path() != "golang.org/x/net/html" {
 						return
 					}
 					fa := ld.X.(*ssa.FieldAddr)
@@ -196,17 +196,25 @@ func init() {
 			c.check(seeds >= 3, "formatter reads text nodes", "-", fmt.Sprintf("%d text read(s) followed", seeds), "fewer text reads than expected")
 			for i, h := range t.Hits {
 				fn := h.At.Parent()
-				// accepted only in a function whose every call site is on the script/style branch
-				okRaw := true
-				callers := p.Callers(fn)
-				if len(callers) == 0 {
-					okRaw = false
-				}
-				for _, cs := range callers {
-					if r, _ := p.rawTextBranch(cs.Block()); !r {
-						okRaw = false
+				// accepted only in a function that is reached solely on the script/style branch: every call site is
+				// on that branch, or sits in a function that itself is reached solely on it (helpers of helpers)
+				var rawOnly func(f *ssa.Function, d int) bool
+				rawOnly = func(f *ssa.Function, d int) bool {
+					callers := p.Callers(f)
+					if len(callers) == 0 || d > 3 {
+						return false
 					}
+					for _, cs := range callers {
+						if r, _ := p.rawTextBranch(cs.Block()); r {
+							continue
+						}
+						if cs.Parent() == f || !rawOnly(cs.Parent(), d+1) {
+							return false
+						}
+					}
+					return true
 				}
+				okRaw := rawOnly(fn, 0)
 				// … or a strings.Builder local to a raw-text function (content collected, then written)
 				c.check(okRaw, fmt.Sprintf("%s: raw text write#%d", shortName(fn), i+1), p.instrPos(h.At), "only reached for script/style elements", "text is written without the text escaper outside the script/style path: `&lt;b&gt;` in a template becomes a live <b> after formatting — "+shortWhy(h.Why))
 			}
@@ -522,7 +530,7 @@ func init() {
 				}
 				eachInstr(fn, func(in ssa.Instruction) {
 					if ld, ok := in.(*ssa.UnOp); ok && ld.Op == token.MUL {
-						if fv := fieldVar(ld.X); fv != nil && fv.Pkg() != nil && strings.HasSuffix(fv.Pkg().Path(), "goldmark/ast") && (fv.Name() == "Value" || fv.Name() == "Destination" || fv.Name() == "Title") {
+						if fv := fieldVar(ld.X); fv != nil && fv.Pkg() != nil && strings.HasSuffix(fv.Pkg().Path(), "goldmark/ast") && (fieldIs(fv, "Value") || fieldIs(fv, "Destination") || fieldIs(fv, "Title")) {
 							seeds++
 							t.Seed(ld, "ast field "+fv.Name()+" at "+p.instrPos(ld))
 						}
